@@ -82,7 +82,7 @@ static void run_ring(std::istringstream& in) {
                 for (size_t i = 0; i < c.size(); ++i) out << (i ? "." : "") << c[i].get();
                 out << ":";
                 if (c.empty()) out << "-:-"; else out << c.front().get() << ":" << c.back().get();
-                out << " ";
+                out << " live=" << verif::Ledger::get().live.size() << " ";
             }
         }
     }
@@ -110,7 +110,7 @@ static void run_svec(std::istringstream& in) {
                 const SV& c = x; out << "Q:";
                 for (size_t i = 0; i < c.size(); ++i) out << (i ? "." : "") << c[i].get();
                 if (c.size() && (&c.front() != &c[0] || &c.back() != &c[c.size() - 1] || c.end() - c.begin() != static_cast<long>(c.size()))) out << "!iter";
-                out << " ";
+                out << " live=" << verif::Ledger::get().live.size() << " ";
             }
         }
     }
